@@ -83,13 +83,29 @@ def gen_ast(rng):
     post = None
     if rng.random() < 0.12:
         post = {"tag": t(), "src": f"%t{rng.randrange(ntmp)}"}  # a temporary of the loop is read once more behind the loop
+    scratch_views = rng.random() < 0.08  # the temporaries are subviews, taken inside the loop body, of one scratch allocation
+    accumulator = None
+    if rng.random() < 0.08 and nst >= 2:
+        # a running result: %acc is initialised in front of the loop, one stage reads and writes it, the next stage reads it
+        k = rng.randrange(1, nst) if nst > 2 else 1
+        accumulator = k
     alloc_in_loop = rng.random() < 0.08  # the temporaries are allocated inside the loop body (among the index ops)
     lb_shared = rng.random() < 0.15  # the constant that is the lower bound is also used inside the body (when it is 0)
     ring = rng.choice([0, 0, 0, 3, 4])  # the side output goes to a ring of `ring` slots: an arith.remui among the index ops
-    return {"nst": nst, "tmps": ntmp, "skip": skip is not None, "tail": tail, "ring": ring, "post": post, "alias": alias, "lb_shared": lb_shared, "alloc_in_loop": alloc_in_loop and alias is None and post is None, "const_bounds": rng.random() < 0.75, "stages": stages}
+    return {"nst": nst, "tmps": ntmp, "skip": skip is not None, "tail": tail, "ring": ring, "post": post, "alias": alias, "lb_shared": lb_shared, "alloc_in_loop": alloc_in_loop and alias is None and post is None and not scratch_views, "scratch_views": scratch_views and alias is None and post is None, "accumulator": accumulator, "const_bounds": rng.random() < 0.75, "stages": stages}
 
 
-def op_text(o):
+TVS = 'memref<' + str(E) + 'xi32, strided<[1], offset: {off}>, "L1">'
+
+
+def op_text(o, view_tmps=0):
+    plain = globals()["btype"]
+
+    def btype(b):
+        if view_tmps and b.startswith("%t") and b[2:].isdigit():
+            return TVS.format(off=E * int(b[2:]))
+        return plain(b)
+
     if o["k"] == "copy":
         return f'"memref.copy"({o["src"]}, {o["dst"]}) {{vtag = {o["tag"]} : i64}} : ({btype(o["src"])}, {btype(o["dst"])}) -> ()'
     n = len(o["ins"])
@@ -100,7 +116,8 @@ def op_text(o):
     tys = [btype(b) for b in o["ins"]] + (["index"] if sc else [])
     return (
         f'linalg.generic {{indexing_maps = [{maps}], iterator_types = ["parallel"], doc = "k{o["tag"]}"}} '
-        f'ins({", ".join(ins)} : {", ".join(tys)}) outs({o["dst"]} : {btype(o["dst"])}) {{\n^bb0({args}):\n  linalg.yield %x0 : i32\n}}'
+        f'ins({", ".join(ins)} : {", ".join(tys)}) outs({o["dst"]} : {btype(o["dst"])}) {{\n^bb0({args}):\n'
+        + (f"  %acc_new = arith.addi %x0, %x{n} : i32\n  linalg.yield %acc_new : i32\n}}" if o.get("accum") else "  linalg.yield %x0 : i32\n}")
     )
 
 
@@ -120,9 +137,14 @@ def emit(ast, env=None) -> str:
         lb, ub, st = "%lb", "%ub", "%st"
     else:
         lb, ub, st = "%lba", "%uba", "%sta"
-    if not ast.get("alloc_in_loop"):
+    if ast.get("scratch_views"):
+        e(f'    %scratch = memref.alloc() {{vsite = 50 : i64}} : memref<{E * ast["tmps"]}xi32, "L1">')
+    elif not ast.get("alloc_in_loop"):
         for t in range(ast["tmps"]):
             e(f"    %t{t} = memref.alloc() {{vsite = {t} : i64}} : {T1}")
+    if ast.get("accumulator") is not None:
+        e(f"    %acc = memref.alloc() {{vsite = 60 : i64}} : {T1}")
+        e(f'    "memref.copy"(%G, %acc) {{vtag = 98 : i64}} : ({T1}, {T1}) -> ()')
     if ast.get("alias") is not None:
         j = ast["alias"]
         e(f"    %t{j}v = memref.subview %t{j}[0][{E}][1] : {T1} to {TV}")
@@ -137,6 +159,9 @@ def emit(ast, env=None) -> str:
         e("      %off = arith.addi %off0, %lb : index")
     else:
         e("      %off = arith.muli %i, %cE : index")
+    if ast.get("scratch_views"):
+        for t in range(ast["tmps"]):
+            e(f'      %t{t} = memref.subview %scratch[{E * t}][{E}][1] : memref<{E * ast["tmps"]}xi32, "L1"> to {TVS.format(off=E * t)}')
     if ast.get("alloc_in_loop"):
         for t in range(ast["tmps"]):
             e(f"      %t{t} = memref.alloc() {{vsite = {t} : i64}} : {T1}")
@@ -148,9 +173,17 @@ def emit(ast, env=None) -> str:
         e(f"      %so2 = memref.subview %O2[%off2][{E}][1] : {BIG} to {TS}")
     else:
         e(f"      %so2 = memref.subview %O2[%off][{E}][1] : {BIG} to {TS}")
-    for ops in ast["stages"]:
+    views = ast.get("scratch_views")
+    for si, ops in enumerate(ast["stages"]):
         for o in ops:
-            e("      " + op_text(o))
+            e("      " + op_text(o, ast["tmps"] if views else 0))
+        if ast.get("accumulator") is not None:
+            k = ast["accumulator"]
+            if si == k - 1:
+                # reads and writes the running result
+                e("      " + op_text({"k": "gen", "ins": ["%sa"], "dst": "%acc", "tag": 96, "accum": True}))
+            elif si == k:
+                e("      " + op_text({"k": "copy", "src": "%acc", "dst": "%so2", "tag": 97}))
         e('      "snax.cluster_sync_op"() : () -> ()')
     if ast.get("tail"):
         e(f'      "test.op"({ast["tail"]["arg"]}) {{vtag = {ast["tail"]["tag"]} : i64}} : (index) -> ()')
@@ -194,6 +227,10 @@ def shrink_ast(ast):
         yield dict(ast, lb_shared=False)
     if ast.get("alloc_in_loop"):
         yield dict(ast, alloc_in_loop=False)
+    if ast.get("scratch_views"):
+        yield dict(ast, scratch_views=False)
+    if ast.get("accumulator") is not None:
+        yield dict(ast, accumulator=None)
     for s_, ops_ in enumerate(ast["stages"]):
         for j_, o_ in enumerate(ops_):
             if o_.get("scalar"):
